@@ -573,9 +573,12 @@ func (env *cenv) call(e *CExpr) cval {
 		}
 		g.eventVars(ev)
 		return env.intv(fmt.Sprintf("(- %s %s)", g.get(env.cur, "G.cnt."+ev), g.get(env.old, "G.cnt."+ev)))
-	case "lastret":
+	case "lastret", "firstret":
 		ev := args[0].Name
 		rn := "G.ret." + ev
+		if fnE.Name == "firstret" {
+			rn = "G.fret." + ev
+		}
 		srt, ok := g.varSort[rn]
 		if !ok {
 			env.fail("lastret(%s): the event never occurs in this function", ev)
@@ -589,6 +592,16 @@ func (env *cenv) call(e *CExpr) cval {
 		name := "G.u." + args[0].Name
 		g.stateVar(name, "Int")
 		return env.intv(g.get(env.cur, name))
+	case "gm":
+		// gm(name, key): ghost map Int -> Int
+		name := "G.m." + args[0].Name
+		g.stateVar(name, "(Array Int Int)")
+		k := env.eval(args[1])
+		kt := k.term
+		if k.sort == "Iface" {
+			kt = fmt.Sprintf("(ival %s)", k.term)
+		}
+		return env.intv(fmt.Sprintf("(select %s %s)", g.get(env.cur, name), kt))
 	case "fresh":
 		a := env.eval(args[0])
 		if env.old == nil {
